@@ -831,7 +831,7 @@ def proxy_keys(ctx: Ctx) -> None:
     R = bs[0].args[4] if bs and len(bs[0].args) >= 6 else None
     W = bs[0].args[5] if bs and len(bs[0].args) >= 6 else None
     wp = [n for n in g.own_nodes() if isinstance(n, ast.Assign) and isinstance(n.targets[0], ast.Subscript) and isinstance(n.targets[0].value, ast.Name) and isinstance(W, ast.Name) and n.targets[0].value.id == W.id]
-    ctx.need(wp, "primitive: the stores that fill the write-proxy dict are not in general_blockwise itself")
+    ctx.present(g, wp, "primitive: the stores that fill the write-proxy dict")
     ok = bool(wp)
     for w_ in wp:
         sl = w_.targets[0].slice
